@@ -80,6 +80,34 @@ Definition kf2_case : case := CDep None (hx "612f6201632f64") (ODep RErr []).   
 Theorem C14_refuted_2_proof : wf kf2_case = true /\ kf kf2_case = 2 /\ spec kf2_case (model kf2_case) = false.
 Proof. vm_compute. repeat split. Qed.
 
+
+(* ---- statements of Properties/C14.v that combine lemmas ---- *)
+Lemma regex_pinned :
+  PA_pkgVerRE = bs "^(.*?)-(\d+(?:\.\d+)*[a-z]?)((?:_(?:alpha|beta|pre|rc|p)\d*)+)?(?:-(r\d+))?(\*?)$" /\
+  PA_pkgCatNameRE = bs "^(?:(\w[\w+.-]*)/)?(\w[\w+-]*)$".
+Proof. split; reflexivity. Qed.
+Lemma version_matcher_complete : forall v g, wf_version v = true ->
+  ver_tail (print_version v ++ globtxt g) = Some (MkVT (print_ver_main v) (print_sufs v) (print_rev v) g).
+Proof. intros v g H. apply ver_tail_print. now apply wf_version_wfv. Qed.
+Lemma reference_version_syntax : forall v, wf_version v = true -> is_pms_version (print_version v) = true.
+Proof. intros v H. apply pms_version_print. now apply wf_version_wfv. Qed.
+Lemma name_version_boundary : forall a, wfcn a ->
+  (forall v g, wfv v ->
+     ver_split (print_catname a ++ nb 45 :: print_version v ++ globtxt g) =
+     Some (print_catname a, MkVT (print_ver_main v) (print_sufs v) (print_rev v) g)) /\
+  ver_split (print_catname a) = None.
+Proof. intros a W. split; [intros v g Wv; now apply ver_split_version|now apply ver_split_none]. Qed.
+Lemma string_prints_tree : forall s l, decode s = ROk l ->
+  map dep_string l = map (fun d => DepParseP.sp_join (dep_toks d)) l.
+Proof.
+  intros s l E. pose proof (decode_ok_wt s l E) as Hwt. clear E. induction l as [|x l IH]; [reflexivity|].
+  cbn in Hwt. apply andb_true_iff in Hwt as [Hx Hl]. cbn [map]. f_equal; [now apply dep_string_toks|now apply IH].
+Qed.
+Lemma refuted_1 : exists c, wf c = true /\ kf c = 1 /\ spec c (model c) = false.
+Proof. exists kf1_case. exact C14_refuted_1_proof. Qed.
+Lemma refuted_2 : exists c, wf c = true /\ kf c = 2 /\ spec c (model c) = false.
+Proof. exists kf2_case. exact C14_refuted_2_proof. Qed.
+
 (* ---- the hypotheses of the theorems are satisfiable by non-trivial inputs ---- *)
 Definition ex_version : version_ast := MkVer [bs "1"; bs "20"; bs "003"] (Some (nb 98)) [(0, bs "1"); (4, [])] (Some (bs "2")).
 Definition ex_atom : atom_ast :=
